@@ -45,6 +45,7 @@ type Script struct {
 	Recreate           bool `json:"-"` // some round deletes a key and inserts identical content again
 	RecreateAcross     bool `json:"-"`
 	MergedAndDiscarded bool `json:"-"`
+	Wide               bool `json:"-"` // round numbers continue beyond 2^31
 }
 
 // Gen draws a script of 1..maxRounds rounds. withPrune adds prune steps.
@@ -55,6 +56,11 @@ func Gen(rt *rapid.T, maxRounds int, withPrune bool) *Script {
 	n := gen.Uniform(rt, 1, maxRounds, "nrounds")
 	version := int64(gen.Uniform(rt, 1, 3, "v1"))
 	graveyard := map[string][]byte{} // deleted pairs, candidates for identical re-creation
+	wide := n >= 3 && gen.Chance(rt, 12, "wide")
+	jumpAt := -1
+	if wide {
+		jumpAt = gen.Uniform(rt, 1, n-2, "jumpat")
+	}
 	for r := 0; r < n; r++ {
 		rd := Round{Version: version}
 		ntx := gen.Uniform(rt, 1, 4, "ntx")
@@ -109,6 +115,13 @@ func Gen(rt *rapid.T, maxRounds int, withPrune bool) *Script {
 		s.Rounds = append(s.Rounds, rd)
 		s.Models = append(s.Models, mptkit.CopyContent(model))
 		version += int64(gen.Uniform(rt, 1, 2, "dv"))
+		if wide && r == jumpAt {
+			// round numbers are 64-bit: the history continues 2^32 (or 2^31, 2^40) rounds later, at a number whose low
+			// half repeats the number of a round that is already there, or next to it
+			earlier := gen.Pick(rt, s.Rounds, "jumponto").Version
+			version = int64(gen.Pick(rt, []int{1 << 32, 1 << 32, 1 << 32, 1 << 31, 1 << 40}, "jumpby")) + earlier + int64(gen.Pick(rt, []int{0, 0, 0, 1, -1}, "jumpoff"))
+			s.Wide = true
+		}
 	}
 	return s
 }
